@@ -9,6 +9,6 @@ cp /repo/aldy/indelpost/*.so $w/aldy/indelpost/ 2>/dev/null
 git -C $w apply $patch || { echo "apply failed"; git -C /repo worktree remove --force $w; exit 8; }
 mkdir -p /tmp/sr_out_$$
 cd /verif && VERIF_REPO=$w VERIF_EVIDENCE=/tmp/sr_out_$$ VERIF_REPLAYS=/tmp/sr_out_$$/replays \
-  timeout 1500 bin/check $id --tier $tier 2>&1 | grep -E "VIOLATION|what:|HARNESS-ERROR|^\[C|not be reproduced" | cut -c1-400 | head -8
+  timeout 1500 bin/check $id --tier $tier "${@:4}" 2>&1 | grep -E "VIOLATION|what:|HARNESS-ERROR|^\[C|not be reproduced" | cut -c1-400 | head -8
 echo "exit=${PIPESTATUS[0]}"
 git -C /repo worktree remove --force $w; rm -rf /tmp/sr_out_$$
